@@ -25,6 +25,11 @@ def gen_box(ctx, nmax):
 def check(ctx):
     nmax = 6 if ctx.tier == "quick" else 9
     cfgs = gen_box(ctx, nmax)
+    # "every parameter tuple in the documented domain yields a complete stream": besides the boundary
+    # box, every configuration of the shared trace box (all of them in the valid zone, or rejected
+    # and then judged as such) is driven to the end and judged by the same specification
+    from . import boxes
+    cfgs += [c for c in boxes.ebox(ctx.tier, ctx.seed) if "calls" not in c]
     traces = record.record_many(cfgs)
     verdicts = fw.validate(ctx, traces, module="TraceDomain")
     viols = []
@@ -41,7 +46,8 @@ def check(ctx):
     cov = {
         "traces_validated_against_impl": len(traces),
         "tuples_per_class_and_zone": {f"{c}/{z}": n for (c, z), n in sorted(zones.items())},
-        "box": f"n in 0..{nmax}, unit counts 0..n+2, all four storages, period 0..4, b 0..3, 2 cost vectors",
+        "box": f"n in 0..{nmax}, unit counts 0..n+2, all four storages, period 0..4, b 0..3, 2 cost vectors; "
+               "plus every configuration of the shared trace box (harness/boxes.py:ebox)",
         "samples": [{"config": fw.describe(t), "zone": v["extra"][0], "ctor": t["ctor"],
                      "events": len(t["ev"])} for t, v in list(zip(traces, verdicts))[:: max(1, len(traces) // 6)]],
         "exhaustive": True,
